@@ -365,6 +365,171 @@ def _storm_real(cfg, conv):
     return None
 
 
+# ------------------------------------------------------------------------------------------------
+# the Newton solver's own control flow: every way a solve can end is reported as a status, never as an exception
+import numpy as np
+import scipy.sparse
+import wntr.sim.solvers as SOLV
+
+
+class _StubModel:
+    """one variable, one row; every residual evaluation returns a fresh symbolic norm; the Jacobian is a real 1x1 sparse matrix
+    (singular or not, by a forked choice) so that the real scipy call decides what a singular matrix does"""
+    def __init__(self, V, singular_at):
+        self.V, self.k, self.j, self.singular_at = V, 0, 0, singular_at
+        self.loaded = []
+        self.evals = []
+
+    def get_x(self):
+        return np.array([0.0])
+
+    def evaluate_residuals(self, x=None):
+        r = self.V.real('r%d' % self.k, 0, 10)
+        self.k += 1
+        self.evals.append((r, len(self.loaded)))
+        out = np.empty(1, dtype=object)
+        out[0] = r
+        return out
+
+    def evaluate_jacobian(self, x=None):
+        v = 0.0 if self.j == self.singular_at else 2.0
+        self.j += 1
+        return scipy.sparse.csr_matrix(np.array([[v]]))
+
+    def load_var_values_from_x(self, x):
+        self.loaded.append(x)
+
+
+class _Linalg:
+    """scipy.sparse.linalg as the solver module sees it: the REAL routines run on the real matrix with a float right-hand side (so a
+    singular matrix is reported the way scipy reports it, under the warnings filter wntr.sim.solvers installs); the direction
+    returned to the symbolic run is a plain float vector"""
+    def __getattr__(self, n):
+        return getattr(scipy.sparse.linalg, n)
+
+    @staticmethod
+    def spsolve(J, r, **kw):
+        return scipy.sparse.linalg.spsolve(J, np.ones(J.shape[0]), **kw)
+
+    @staticmethod
+    def splu(J, **kw):
+        lu = scipy.sparse.linalg.splu(J, **kw)
+
+        class _LU:
+            def solve(self_, r, *a, **k):
+                return lu.solve(np.ones(J.shape[0]), *a, **k)
+        return _LU()
+
+
+class _Sp:
+    linalg = _Linalg()
+
+    def __getattr__(self, n):
+        return getattr(scipy.sparse, n)
+
+
+class _Clock:
+    """time.time(): arbitrary non-decreasing instants"""
+    def __init__(self, V):
+        self.V, self.k, self.last = V, 0, None
+
+    def time(self):
+        t = self.V.real('clock%d' % self.k, 0, 1000)
+        self.k += 1
+        if self.last is not None and self.V.symbolic:
+            self.V.c.assume(real(t) >= real(self.last))
+        self.last = t
+        return t
+
+    def __getattr__(self, n):
+        import time as _t
+        return getattr(_t, n)
+
+
+def check_solver(rep):
+    saved = (SOLV.sp, SOLV.time)
+    undo = symx.install_shims(SOLV, ('np',))
+    opts = {'MAXITER': 2, 'BT_MAXITER': 2, 'TIME_LIMIT': 100, 'TOL': 1e-6}
+    try:
+        def harness(c):
+            V = SymVars(c)
+            singular_at = V.choice('singular_at', [-1, 0, 1])
+            bt = V.choice('backtracking', [True, False])
+            m = _StubModel(V, singular_at)
+            SOLV.sp, SOLV.time = _Sp(), _Clock(V)
+            with warnings.catch_warnings():
+                warnings.filterwarnings('error', 'Matrix is exactly singular', scipy.sparse.linalg.MatrixRankWarning)
+                out = NewtonSolver(dict(opts, BACKTRACKING=bt)).solve(m)
+            return V, m, out, singular_at
+        n = 0
+        bad = set()
+        cons = []
+        for path in symx.explore(harness, max_paths=4000, timeout_s=300, catch=(Exception, Warning)):
+            n += 1
+            cons = path.constraints()
+            choices = dict(path.choices)
+            if path.exc is not None:
+                if 'raised' not in bad:
+                    bad.add('raised')
+                    rep.counterexample('solver/raised', dict(singular_at=choices.get('singular_at', -1), backtracking=choices.get('backtracking', True),
+                                                             why='NewtonSolver.solve raised %s: %s' % (type(path.exc).__name__, path.exc)), 'solver')
+                continue
+            V, m, out, singular_at = path.value
+            ok = isinstance(out, tuple) and len(out) == 3 and out[0] in (SolverStatus.converged, SolverStatus.error)
+            if not ok:
+                if 'shape' not in bad:
+                    bad.add('shape')
+                    rep.counterexample('solver/returns-status', dict(singular_at=singular_at, backtracking=choices.get('backtracking', True), why='solve returned %r' % (out,)), 'solver')
+                continue
+            wit = lambda mdl, V=V: V.witness(mdl, singular_at=singular_at, backtracking=choices.get('backtracking', True))
+            status, msg, it = out
+            if status == SolverStatus.converged:
+                # converged is only said when the last residual norm that was looked at is below the tolerance, and the model holds the
+                # point that residual belongs to (no load after it)
+                r_last, loads_then = m.evals[-1]
+                claim = z3.And(real(r_last) < symx.rv(opts['TOL']), z3.BoolVal(loads_then == len(m.loaded)))
+                if 'converged' not in bad and not rep.prove('solver/converged-means-below-tolerance/path%d' % n, cons, claim, wit, 'solver',
+                                                            sample='converged after %d residual evaluations' % len(m.evals)):
+                    bad.add('converged')
+            else:
+                # an error status names its reason; with a singular matrix at iteration k the reason is the singular matrix
+                known = ('Time limit exceeded', 'Jacobian is singular', 'Line search failed', 'Reached maximum number of iterations')
+                if not any(msg.startswith(k_) for k_ in known):
+                    if 'message' not in bad:
+                        bad.add('message')
+                        rep.counterexample('solver/error-message', dict(singular_at=singular_at, backtracking=choices.get('backtracking', True), why='error status with message %r' % msg), 'solver')
+                else:
+                    rep.discharged('solver/error-is-a-status/path%d' % n, sample={'message': msg, 'residual evaluations': len(m.evals), 'singular_at': singular_at})
+        rep.extra['solver_paths'] = n
+        if not bad and n:
+            rep.reach('solver', cons)
+    finally:
+        SOLV.sp, SOLV.time = saved
+        undo()
+
+
+def replay_solver(i):
+    """the real NewtonSolver on a real (compiled) aml model whose Jacobian is singular / regular, through the real _solver_helper"""
+    import wntr.sim.aml as aml
+    m = aml.Model()
+    m.x, m.y = aml.Var(0.5), aml.Var(0.25)
+    if int(i.get('singular_at', -1)) >= 0:
+        m.c1 = aml.Constraint(m.x + m.y - 1.0)
+        m.c2 = aml.Constraint(2.0 * m.x + 2.0 * m.y - 3.0)
+    else:
+        m.c1 = aml.Constraint(m.x + m.y - 1.0)
+        m.c2 = aml.Constraint(m.x - m.y)
+    try:
+        out = core._solver_helper(m, NewtonSolver, {'MAXITER': 5, 'BACKTRACKING': bool(i.get('backtracking', True))})
+    except BaseException as ex:
+        return 'a solve that cannot succeed raised %s (%s) instead of returning an error status' % (type(ex).__name__, ex)
+    if not (isinstance(out, tuple) and len(out) == 3 and out[0] in (SolverStatus.converged, SolverStatus.error)):
+        return 'the solve returned %r' % (out,)
+    if int(i.get('singular_at', -1)) >= 0 and out[0] == SolverStatus.converged:
+        return 'an inconsistent singular system was reported as solved'
+    return None
+
+
 def run(rep, only=None):
     rep.explanation = ('The real run_sim with the numeric kernel replaced by a stub driven by a symbolic fault schedule (failing solve index symbolic, backup solver / convergence_error forked) '
                        'and a symbolic time-control instant; every feasible path is explored; z3 decides time ordering / report-grid / prefix-equality claims; raise-or-flag behaviour and table '
@@ -375,6 +540,10 @@ def run(rep, only=None):
         rep.stub(s)
     rep.bound('one 4-node / 5-link template (pipes, head pump, TCV, tank); <= 4 hydraulic steps; failing solve index in [-1, steps+2]; report in {ALL, H, 2H}; one time control with a symbolic instant; '
               'trial storm with trials in {2, 3}')
-    rep.bound('NewtonSolver.solve itself (maxiter, bt_maxiter, time_limit) and finiteness of the numbers are outside: the kernel is stubbed')
-    tasks = [('c16-' + cfg['name'], check_cfg, (cfg,)) for cfg in CFGS_QUICK]
+    rep.bound('NewtonSolver.solve: its control flow is executed on a one-variable stub model with symbolic residual norms (any value in [0, 10] at every evaluation), a symbolic non-decreasing clock, '
+              'MAXITER = 2, BT_MAXITER = 2, with / without backtracking, the Jacobian singular at iteration 0, 1 or never (real scipy call on the real matrix): every ending is a status triple, '
+              'converged only below the tolerance. What the linear algebra does to the numbers, and finiteness of the results, are outside')
+    rep.encode(NewtonSolver.solve)
+    rep.stub('scipy.sparse.linalg in wntr.sim.solvers: the real routine runs on the real matrix with a float right-hand side; time.time -> symbolic non-decreasing clock')
+    tasks = [('c16-' + cfg['name'], check_cfg, (cfg,)) for cfg in CFGS_QUICK] + [('solver', check_solver, ())]
     run_parallel(rep, tasks)
